@@ -1,6 +1,8 @@
 SPECIFICATION Spec
 CONSTANTS MaxBr = 3 MaxN = 4 CopyMode = "deep"
   BufSizes <- BufAll
+  FillBr = 3
+  FillTemplates <- FillFew
   Templates <- AllTemplates
 INVARIANT Emitted
 CHECK_DEADLOCK FALSE
